@@ -473,8 +473,8 @@ func (w *c07Walker) node(n ast.Node, env, loops []string, here, after, outer *in
 				if n.IfEmpty == nil {
 					n.IfEmpty = &ast.ListNode{}
 				}
-				ie := n.IfEmpty.(*ast.ListNode)
-				ie.Nodes = append(ie.Nodes, printRef(n.Var))
+				// at the head of the block: a {let} further down may bind the same name
+				insertAt(n.IfEmpty.(*ast.ListNode), 0, printRef(n.Var))
 			})
 			w.add("loopvar-outside-loop", "before-loop", func() { insertAt(here.l, here.idx, printRef(n.Var)) })
 		}
@@ -492,8 +492,7 @@ func (w *c07Walker) node(n ast.Node, env, loops []string, here, after, outer *in
 	case *ast.LetContentNode:
 		if !has(bound, n.Name) {
 			w.add("use-before-definition", "own-body", func() {
-				b := n.Body.(*ast.ListNode)
-				b.Nodes = append(b.Nodes, printRef(n.Name))
+				insertAt(n.Body.(*ast.ListNode), 0, printRef(n.Name)) // at the head: nothing in the body binds the name yet
 			})
 		}
 		letSites(n.Name)
